@@ -761,13 +761,13 @@ inductive MSKind where
   | noop          -- an action string the function does not test for
   deriving DecidableEq, Repr
 
-def msKind (f : MSFn) (act : Val) : MSKind :=
+def msKind (f : MSFn) (act : Val) (l : List Tok) : MSKind :=
   match f with
   | .assign => if valIs act "remove" then .join else .noop
   | .lastParen =>
-    if valIs act "insert" then .insert else if valIs act "remove" then .collapse
+    if valIs act "insert" then .insert else if valIs act "remove" then (if keepGuard l then .noop else .collapse)
     else if valIs act "insert_and_move_comment" then .moveComment else .noop
-  | _ => if valIs act "insert" then .insert else if valIs act "remove" then .collapse else .noop
+  | _ => if valIs act "insert" then .insert else if valIs act "remove" then (if keepGuard l then .noop else .collapse) else .noop
 
 /-- the effect of each branch -/
 def MSEffect (c : Cls) (k : MSKind) (l new : List Tok) : Prop :=
@@ -789,7 +789,7 @@ theorem firstWsLast_effect (c : Cls) (l new : List Tok) (h : firstWsLast c l = .
 
 /-- **multiline_structure, every fix function and every action string** -/
 theorem fixMSFn_effect (c : Cls) (isa : Nat → Nat → Bool) (f : MSFn) (act : Val) (semi : Option Nat)
-    (l new : List Tok) (h : fixMSFn c isa f act semi l = .ok new) : MSEffect c (msKind f act) l new := by
+    (l new : List Tok) (h : fixMSFn c isa f act semi l = .ok new) : MSEffect c (msKind f act l) l new := by
   unfold fixMSFn at h
   unfold msKind
   cases f <;> simp only at h ⊢
@@ -797,13 +797,17 @@ theorem fixMSFn_effect (c : Cls) (isa : Nat → Nat → Bool) (f : MSFn) (act : 
     by_cases h1 : valIs act "insert" = true
     · simp only [h1, if_true] at h ⊢; exact breakBefore_spec c l new h
     · by_cases h2 : valIs act "remove" = true
-      · simp only [h1, h2, if_true] at h ⊢; exact firstWsLast_effect c l new h
+      · by_cases hg : keepGuard l = true
+        · simp only [h1, h2, hg, if_true] at h ⊢; exact (Except.ok.inj h).symm
+        · simp only [h1, h2, hg, if_true] at h ⊢; exact firstWsLast_effect c l new h
       · simp only [h1, h2] at h ⊢; exact (Except.ok.inj h).symm
   · -- lastParen
     by_cases h1 : valIs act "insert" = true
     · simp only [h1, if_true] at h ⊢; exact breakAfterFirst_spec c l new h
     · by_cases h2 : valIs act "remove" = true
-      · simp only [h1, h2, if_true] at h ⊢; exact firstLast_effect c l new h
+      · by_cases hg : keepGuard l = true
+        · simp only [h1, h2, hg, if_true] at h ⊢; exact (Except.ok.inj h).symm
+        · simp only [h1, h2, hg, if_true] at h ⊢; exact firstLast_effect c l new h
       · by_cases h3 : valIs act "insert_and_move_comment" = true
         · simp only [h1, h2, h3, if_true] at h ⊢; exact moveComment_eq c isa semi l new h
         · simp only [h1, h2, h3] at h ⊢; exact (Except.ok.inj h).symm
@@ -811,19 +815,25 @@ theorem fixMSFn_effect (c : Cls) (isa : Nat → Nat → Bool) (f : MSFn) (act : 
     by_cases h1 : valIs act "insert" = true
     · simp only [h1, if_true] at h ⊢; exact breakAtEnd_spec c l new h
     · by_cases h2 : valIs act "remove" = true
-      · simp only [h1, h2, if_true] at h ⊢; exact firstLast_effect c l new h
+      · by_cases hg : keepGuard l = true
+        · simp only [h1, h2, hg, if_true] at h ⊢; exact (Except.ok.inj h).symm
+        · simp only [h1, h2, hg, if_true] at h ⊢; exact firstLast_effect c l new h
       · simp only [h1, h2] at h ⊢; exact (Except.ok.inj h).symm
   · -- closeParen
     by_cases h1 : valIs act "insert" = true
     · simp only [h1, if_true] at h ⊢; exact breakAfterFirst_spec c l new h
     · by_cases h2 : valIs act "remove" = true
-      · simp only [h1, h2, if_true] at h ⊢; exact firstLast_effect c l new h
+      · by_cases hg : keepGuard l = true
+        · simp only [h1, h2, hg, if_true] at h ⊢; exact (Except.ok.inj h).symm
+        · simp only [h1, h2, hg, if_true] at h ⊢; exact firstLast_effect c l new h
       · simp only [h1, h2] at h ⊢; exact (Except.ok.inj h).symm
   · -- comma
     by_cases h1 : valIs act "insert" = true
     · simp only [h1, if_true] at h ⊢; exact breakAfterComma_spec c l new h
     · by_cases h2 : valIs act "remove" = true
-      · simp only [h1, h2, if_true] at h ⊢; exact firstWsLast_effect c l new h
+      · by_cases hg : keepGuard l = true
+        · simp only [h1, h2, hg, if_true] at h ⊢; exact (Except.ok.inj h).symm
+        · simp only [h1, h2, hg, if_true] at h ⊢; exact firstWsLast_effect c l new h
       · simp only [h1, h2] at h ⊢; exact (Except.ok.inj h).symm
   · -- assign
     by_cases h1 : valIs act "remove" = true
@@ -833,7 +843,7 @@ theorem fixMSFn_effect (c : Cls) (isa : Nat → Nat → Bool) (f : MSFn) (act : 
 theorem fixMS_effect (c : Cls) (isa : Nat → Nat → Bool) (action : KV) (l new : List Tok)
     (h : fixMS c isa action l = .ok new) :
     ∃ ty f act, dget action "type" = .ok ty ∧ msFnOf ty = .ok f ∧ dget action "action" = .ok act ∧
-      MSEffect c (msKind f act) l new := by
+      MSEffect c (msKind f act l) l new := by
   unfold fixMS at h
   cases h1 : dget action "type" with
   | error e => simp [h1, bind, Except.bind] at h
